@@ -654,6 +654,26 @@ def family_projects(run, work, rng, count):
     add("two-cycle-deep", 5, [(0, 1), (1, 2), (2, 3), (3, 4), (4, 3)], "mixed")
     add("diamond-back-edge", 4, [(0, 1), (0, 2), (1, 3), (2, 3), (3, 1)])
     add("dense-dag-6", 6, [(i, j) for i in range(6) for j in range(i + 1, 6)], "mixed")
+    # wide fan-out with further imports below every child (seed C15e: a bounded pool of parser slots taken by the importing
+    # goroutine before its children are spawned deadlocks once 8 modules each wait for a slot for their own first import)
+    def wide(k, leaves, shared=True, back=None):
+        es = [(0, i) for i in range(1, k + 1)]
+        nxt = k + 1
+        base = None
+        if shared:
+            base = nxt; nxt += 1
+        for i in range(1, k + 1):
+            for _ in range(leaves):
+                es.append((i, nxt))
+                if shared and nxt % 2 == 0: es.append((nxt, base))
+                nxt += 1
+            if shared: es.append((i, base))
+        if back is not None: es.append((nxt - 1, back))
+        return nxt, es
+    n_, es_ = wide(12, 2); add("wide-12x2-shared", n_, es_)
+    n_, es_ = wide(9, 1, shared=False); add("wide-9x1", n_, es_, "alias")
+    n_, es_ = wide(16, 0, shared=False); add("wide-16-flat", n_, es_)
+    n_, es_ = wide(10, 2, back=3); add("wide-10x2-cycle", n_, es_, "mixed")
     while len(ps) < count:
         n = rng.randint(4, 7)
         fam = rng.choice(["dag", "cycle", "back-edge", "diamond", "shared-leaf", "chain"])
